@@ -616,6 +616,11 @@ class Models(object):
                 raise_builtin('IndexError', 'index out of range')
             return mk_num(base.at(z3.simplify(t)))
         if isinstance(base, SStr):
+            # a character of a leading literal part (the atoms have unknown widths, so only those positions are decidable)
+            if isinstance(idx, int) and idx >= 0 and base.parts and isinstance(base.parts[0], str) and idx < len(base.parts[0]):
+                return base.parts[0][idx]
+            if isinstance(idx, int) and idx < 0 and base.parts and isinstance(base.parts[-1], str) and -idx <= len(base.parts[-1]):
+                return base.parts[-1][idx]
             raise Unsupported('index into structured string')
         if base is None or isnum(base):
             raise_builtin('TypeError', 'object is not subscriptable')
